@@ -867,6 +867,34 @@ def validity_table(ctx, rid, isv):
                  "key %r: valid iff value %s 0" % (key, valid_op) if ok else
                  "key %r: is_solution_valid accepts iff value %s 0 but the key names the relation %s 0"
                  % (key, valid_op, want) if ret_false else "key %r: violating branch does not return False" % key)
+    # the written-out form: for v in self._constraints.get(key, []): if v.value(solution) OP 0: return False
+    for n in g.stmts():
+        if not (isinstance(n, ast.For) and isinstance(n.target, ast.Name) and not n.orelse):
+            continue
+        it = n.iter
+        key = None
+        if isinstance(it, ast.Call) and isinstance(it.func, ast.Attribute) and it.func.attr == 'get' \
+                and src(it.func.value) == '%s._constraints' % selfn and it.args and isinstance(it.args[0], ast.Constant):
+            key = it.args[0].value
+        elif isinstance(it, ast.Subscript) and src(it.value) == '%s._constraints' % selfn and isinstance(it.slice, ast.Constant):
+            key = it.slice.value
+        if key is None or key in seen or len(n.body) != 1 or not isinstance(n.body[0], ast.If) or n.body[0].orelse:
+            continue
+        iff = n.body[0]
+        c3 = norm_compare(iff.test)
+        o = orient(c3, '%s.value(%s)' % (n.target.id, sol)) if c3 else None
+        rets_ = [s_ for s_ in iff.body if isinstance(s_, ast.Return)]
+        if not o or o[1] != '0' or len(iff.body) != 1 or not rets_ or not is_const(rets_[0].value, False):
+            ctx.inst(rid, isv, n, False, "constraint key %r: the loop does not return False on a comparison of v.value(solution) with 0" % (key,))
+            seen[key] = False
+            continue
+        valid_op = NEG[o[0]]
+        want = REL_OP.get(key)
+        ok = valid_op == want
+        seen[key] = ok
+        ctx.inst(rid, isv, n, ok,
+                 "key %r: valid iff value %s 0" % (key, valid_op) if ok else
+                 "key %r: is_solution_valid accepts iff value %s 0 but the key names the relation %s 0" % (key, valid_op, want))
     for k in RELS:
         if k not in seen:
             ctx.inst(rid, isv, 'key %r' % k, False, "recorded relation %r is never evaluated by is_solution_valid" % k)
